@@ -11,11 +11,18 @@ def run(tier):
                        "7i mod 11 - 5, ...), 5 scalars, and for one NaN / +inf / -inf swept over every position for 19 lengths "
                        "around SIMD boundaries; the real CpuMath methods must return exactly these values (bit-exact) and classes, "
                        "must not disturb other elements, and finiteness / non-zero tests must find a special value or zero at "
-                       "every position; non-trivial: every case; distinct by (kind, length, position, special)")
+                       "every position; the harmonic flows (gradient flow exactly for 5 half-integer steps; rotation: identity at "
+                       "eps = 0, within 4 ulp of the element formula for 5 real steps, special value at every position for the four "
+                       "sign patterns of (cos, sin)), the low-rank application and array_mult_eigs (signed coordinate columns of "
+                       "rank 0..5 for every length, half-Hadamard columns of rank 0..4 on every block of four coordinates) "
+                       "likewise; non-trivial: every case; distinct by (kind, length, position, special)")
     chk.assumptions = ["exact lattice only: the 'up to floating-point summation error' clause for general reals, subnormals and the "
                        "full exponent range is not decided (TLC has no rounding model)",
                        "vectors are allocated by the backend (alignment offsets cannot be chosen through the public Math trait)",
-                       "harmonic flows (cos/sin) are checked only through C02/C03 traces, low-rank application through C02"]
+                       "the rotation's cos / sin are not rational: its element formula is stated in Kernels.tla and evaluated by TLC "
+                       "for integer stand-ins (which the harness's reference formula must reproduce exactly); for real steps the "
+                       "comparison is a harness-side predicate (4 ulp of the larger product)",
+                       "low-rank application is exact only for the dyadic orthonormal families used (coordinate and Hadamard columns)"]
     C.build_harness()
     cfg = os.path.join(C.WORK, "c17.cfg")
     lens = "{1, 2, 3, 4, 5, 7, 8, 9, 15, 16, 17, 31, 32, 33, 63, 64, 65, 129, 130}" if tier == "quick" else \
